@@ -167,12 +167,20 @@ def step (w : World) (line : String) : World × String :=
     match w.find n, mask? m with
     | some e, some l =>
       if e.kind == .topic then (w, "bad-op")
-      else if rest == [] then (iterate (World.update w { e with slot := { installed := true, mask := l } }), "ok")
-      else if rest == ["off"] then (iterate (World.update w { e with slot := { installed := false, mask := l } }), "ok")
+      else if rest == [] then (iterate (setListener w n true l), "ok")
+      else if rest == ["off"] then (iterate (setListener w n false l), "ok")
       else (w, "bad-op")
     | _, _ => (w, "bad-op")
+  | ["coalesce-next", "1", "DATA", "user"] =>
+    if w.coalesce then (w, "bad-op") else ({ w with coalesce := true }, "ok")
   | ["write", n, "1", v] =>
-    if kindIs w n .writer && v.toInt?.isSome then (iterate (deliver (iterate w) n), "ok") else (w, "bad-op")
+    match w.find n with
+    | some e =>
+      if e.kind == .writer && v.toInt?.isSome
+          && (!w.coalesce || (e.matched.length == 1 && (w.stashed == none || w.stashed == some n))) then
+        (iterate (writeOp (iterate w) n), "ok")
+      else (w, "bad-op")
+    | none => (w, "bad-op")
   | ["advance", ns] =>
     match ns.toNat? with
     | some dt => (advance w dt, "ok")
